@@ -139,6 +139,8 @@ def run(ctx, ck) -> None:
     cf = stokes.own.get('class_for')
     if not isinstance(cf, ast.FunctionDef):
         raise AnalysisError('anchor vanished: StokesPyTree.class_for')
+    v3_decided = _factories_by_evaluation(ctx, ck, stokes, kinds, by_letters)
+    outer_ck, ck = ck, type(ck)(ck.pid)  # the written form of the two factories: kept only where it confirms when the evaluation decides
     dicts = [n for n in ast.walk(cf) if isinstance(n, ast.Dict)]
     valid = land.defs.get('ValidStokesType')
     lit = []
@@ -172,7 +174,9 @@ def run(ctx, ck) -> None:
             for e, pol in p.conds():
                 for f in _af(e, pol, {}):
                     if f[0] == 'eq' and ('call', ('var', 'len'), (('var', 'args'),), ()) in f[1]:
-                        other = next(x for x in f[1] if x[0] == 'const')
+                        other = next((x for x in f[1] if x[0] == 'const'), None)
+                        if other is None:
+                            continue
                         c = table.find(world.qualify(land, t[1][1]) or '') if t[0] == 'call' and t[1][0] == 'var' else None
                         got[int(other[1])] = c
         for nargs, c in sorted(got.items()):
@@ -193,6 +197,10 @@ def run(ctx, ck) -> None:
             ck.expect('V3', promoted and is_last, fs, f'components are promoted to a common dtype on this path ({"keyword" if kw_path else "positional"} form) before the container is built',
                       f'from_stokes builds the container on a path ({"keyword" if kw_path else "positional"} form) where the components were not passed through as_promoted_dtype last: components of different dtypes stay unpromoted', instance=f'from_stokes promotion path {npromo}')
         ck.expect('V3', any(p.exit == 'raise' for p in function_paths(fs)), fs, 'other arities raise', 'from_stokes no longer rejects other arities', instance='from_stokes arity', nontrivial=False)
+    written, ck = ck, outer_ck
+    ck.obs.extend(o for o in written.obs if not (v3_decided and o.status != 'ok'))
+    if not v3_decided:
+        ck.floors.extend(written.floors)
 
     # ------------------------------------------------------------------ V4 from_iquv
     # decided by partial evaluation: from_iquv (wherever the class finds it along its MRO) is interpreted with the class and
@@ -410,6 +418,127 @@ def _tree_helpers_by_evaluation(ctx, ck, tree) -> set:
     LO, HI = Opaque('low'), Opaque('high')
     check('uniform_like', lambda t: (t, K, LO, HI), random_leaf('uniform', (LO, HI)), 'leaf i is jax.random.uniform(key_i, leaf.shape, leaf.dtype, low, high) with one key of split(key, n) per leaf, in order')
     return decided
+
+
+def _factories_by_evaluation(ctx, ck, stokes, kinds, by_letters) -> bool:
+    """V3 by abstract execution (sa/axinterp.py): class_for is evaluated on every valid kind and on strings that are not
+    kinds; from_stokes on 0..5 positional components, on every non-empty set of keywords among I, Q, U, V, v, X (in two
+    orders) and on a mixed call.  A valid kind gives its class (class_for) / an instance of it whose field for each letter
+    is the component given for that letter, all promoted together (from_stokes); everything else raises ValueError /
+    TypeError.  Returns True when decided."""
+    import itertools
+
+    from ..axinterp import Built, ClassRef, Env, Func, Interp, Opaque, Promoted, Raised, Undecided, UNK
+    from .. import run as _run
+
+    if _run.CONTROL_EXPECT and not _run.CONTROL_EXPECT.endswith('V3'):
+        return False
+    world, table = ctx.world, ctx.table
+    rc, rf = table.resolve(stokes, 'class_for'), table.resolve(stokes, 'from_stokes')
+    if rc is None or rf is None or not isinstance(rc.node, ast.FunctionDef) or not isinstance(rf.node, ast.FunctionDef) or len(by_letters) < 4:
+        return False
+    problems: list[str] = []
+    n = 0
+
+    def run_(fn_r, args, kwargs):
+        it = Interp(world, table, budget=50_000)
+        it.watch_constructors = {k.qual for k in kinds}
+        res = it.call_function(Func(fn_r.node, Env(module_of(fn_r.node)), ClassRef(stokes), fn_r.found_on), list(args), dict(kwargs))
+        if it.degraded:
+            raise Undecided(it.degraded[0])
+        return res
+
+    try:
+        for kind in list(by_letters) + ['', 'V', 'IV', 'UQ', 'QUI', 'IQUVX', 'i', 'qu']:
+            n += 1
+            try:
+                res = run_(rc, [kind], {})
+            except Raised as exc:
+                if kind in by_letters:
+                    problems.append(f'class_for({kind!r}) raises {exc.name}')
+                elif exc.name != 'ValueError':
+                    problems.append(f'class_for({kind!r}) raises {exc.name}, not ValueError')
+                continue
+            if kind not in by_letters:
+                problems.append(f'class_for({kind!r}) returns {getattr(getattr(res, "cls", None), "name", res)!r} instead of raising ValueError: {kind!r} is not a Stokes kind')
+            elif not (isinstance(res, ClassRef) and res.cls is by_letters[kind]):
+                problems.append(f'class_for({kind!r}) returns {getattr(getattr(res, "cls", None), "name", res)!r}, not the container class whose stokes is {kind!r}')
+        by_len = {len(k): c for k, c in by_letters.items()}
+
+        def expect_instance(text, res, cls, comps):
+            if not (isinstance(res, Built) and res.cls is cls):
+                problems.append(f'{text} returns {getattr(getattr(res, "cls", None), "name", type(res).__name__)}, expected a {cls.name}')
+                return
+            fields = [f.name for f in table.fields(cls)]
+            got = dict(zip(fields, res.args))
+            got.update(dict(res.kwargs))
+            group = frozenset(c.name for c in comps.values())
+            for f in fields:
+                v = got.get(f, UNK)
+                want = comps[f]
+                if isinstance(v, Promoted) and v.value is want:
+                    if v.group != group:
+                        problems.append(f'{text}: the component {f} is promoted with {sorted(v.group)}, not with all the given components {sorted(group)}')
+                elif v is want:
+                    problems.append(f'{text}: the components are not promoted to a common dtype before the container is built')
+                else:
+                    problems.append(f'{text}: the field {f} of the {cls.name} is not the component given for {f.upper()}')
+                    return
+
+        for k_ in range(0, 6):
+            n += 1
+            comps = [Opaque(f'arg{i}') for i in range(k_)]
+            text = f'from_stokes({", ".join(c.name for c in comps)})'
+            try:
+                res = run_(rf, comps, {})
+            except Raised as exc:
+                if k_ in by_len:
+                    problems.append(f'{text} raises {exc.name}')
+                elif exc.name != 'TypeError':
+                    problems.append(f'{text} raises {exc.name}, not TypeError')
+                continue
+            if k_ not in by_len:
+                problems.append(f'{text} is accepted: there is no Stokes kind of {k_} components')
+                continue
+            cls = by_len[k_]
+            expect_instance(text, res, cls, dict(zip([f.name for f in table.fields(cls)], comps)))
+        pool = ['I', 'Q', 'U', 'V', 'v', 'X']
+        for r_ in range(1, 6):
+            for names in itertools.combinations(pool, r_):
+                for order in (names, tuple(reversed(names))):
+                    if r_ > 1 and order == names and r_ > 3:
+                        pass
+                    n += 1
+                    kw = {nm: Opaque(f'given_{nm}') for nm in order}
+                    text = f'from_stokes({", ".join(f"{nm}=.." for nm in order)})'
+                    kind = next((k for k in by_letters if sorted(k) == sorted(names)), None)
+                    try:
+                        res = run_(rf, [], kw)
+                    except Raised as exc:
+                        if kind is not None:
+                            problems.append(f'{text} raises {exc.name}')
+                        elif exc.name != 'TypeError':
+                            problems.append(f'{text} raises {exc.name}, not TypeError')
+                        continue
+                    if kind is None:
+                        problems.append(f'{text} is accepted (returns a {getattr(getattr(res, "cls", None), "name", "?")}): {"".join(order)!r} is not a Stokes kind, a vector is dropped silently or stored under another name')
+                        continue
+                    cls = by_letters[kind]
+                    expect_instance(text, res, cls, {f.name: kw[f.name.upper()] for f in table.fields(cls)})
+        n += 1
+        try:
+            run_(rf, [Opaque('arg0')], {'Q': Opaque('given_Q')})
+            problems.append('from_stokes(arg0, Q=..) mixes positional and keyword components and is accepted')
+        except Raised as exc:
+            if exc.name != 'TypeError':
+                problems.append(f'from_stokes(arg0, Q=..) raises {exc.name}, not TypeError')
+    except Undecided as exc:
+        ck.note(f'V3: the factories could not be evaluated: {exc}')
+        return False
+    ck.expect('V3', not problems, rf.node, f'on {n} calls class_for / from_stokes return the class / an instance of the class of the requested kind holding each given component under its own letter, '
+              'promoted together, and raise for everything that is not a Stokes kind', f'{problems[0] if problems else ""} ({len(problems)} of {n} calls)', instance='factories by evaluation', semantic=True)
+    ck.floor('V3', n, 100, 'factory calls evaluated')
+    return True
 
 
 def controls(world: World) -> list[Control]:
